@@ -275,6 +275,12 @@ def affine(t, syms):
         for s, c in b.items():
             out[s] = out.get(s, 0) + (c if t[1] == "Add" else -c)
         return {s: c for s, c in out.items() if c != 0}
+    if k == "bin" and t[1] in ("Mul", "MulWithOverflow"):
+        a, b = affine(t[2], syms), affine(t[3], syms)
+        for x, y in ((a, b), (b, a)):
+            if set(x) <= {1}:           # a constant times an affine form
+                c0 = x.get(1, 0)
+                return {s: c * c0 for s, c in y.items() if c * c0 != 0}
     if k in ("call", "f"):
         syms.add(t)
         return {t: 1}
@@ -308,6 +314,7 @@ def r4_terminal(ctx):
             continue  # legal moves remain: not terminal
         in_check = None
         turn = None
+        turn_not = set()
         for d, c in conds.items():
             if d[0] == "call" and d[1].endswith("Bitboard::is_current_in_check"):
                 in_check = c != ("in", (0,))
@@ -317,6 +324,10 @@ def r4_terminal(ctx):
                 oth = y if x[0] == "c" else x
                 if oth[0] == "f" and oth[2] == "turn" and c != ("in", (0,)):
                     turn = cst[1]
+                elif oth[0] == "f" and oth[2] == "turn" and cst[1] in (0, 1):
+                    turn_not.add(cst[1])
+        if turn is None and len(turn_not) == 1:
+            turn = 1 - turn_not.pop()      # `if turn == WHITE { .. } else { .. }`: the else branch is the other colour
         others.append((in_check, turn, pe.ret()))
     mates = [(t, r) for ic, t, r in others if ic and t is not None]
     rest = [(ic, t, r) for ic, t, r in others if not (ic and t is not None)]
